@@ -61,7 +61,7 @@ Proof. split; reflexivity. Qed.
 Lemma points_dims_tie : Gen_C12.points_dims = [2; 1; 0; 3] /\ Gen_C12.confidence_reshape = [2; 1; 0].
 Proof. split; reflexivity. Qed.
 
-(* how the three constructors derive the mask of a plain array from the confidence (F7/F8 repaired) *)
+(* how the three constructors derive the mask of a plain array from the confidence (fixes F7/F8) *)
 Lemma numpy_mask_rule_tie :
   Gen_C12.numpy_mask_rule = ["=="; "0"; "data.shape[-1]"] /\ Gen_C12.numpy_body_init_guard = ["isinstance(data, np.ndarray)"].
 Proof. split; reflexivity. Qed.
@@ -82,7 +82,7 @@ Proof. split; reflexivity. Qed.
 
 (* small methods transcribed one-to-one *)
 Lemma small_methods_tie :
-  Gen_C12.pose_copy = ["return self.__class__(self.header, self.body.copy())"]
+  Gen_C12.pose_copy = ["return self.__class__(deepcopy(self.header), self.body.copy())"]
   /\ Gen_C12.pose_frame_dropout_uniform =
      ["body, selected_indexes = self.body.frame_dropout_uniform(dropout_min=dropout_min, dropout_max=dropout_max)";
       "return (Pose(header=self.header, body=body), selected_indexes)"]
@@ -164,7 +164,7 @@ Lemma transcribed_methods_tie :
   /\ Gen_C12.header_bbox_component_args = ["c.name"; "box_points"; "box_limbs"; "box_colors"; "c.format"]
   /\ Gen_C12.header_total_points = ["return sum(map(lambda c: len(c.points), self.components))"]
   /\ Gen_C12.header_num_dims = ["return max([len(c.format) for c in self.components]) - 1"]
-  /\ Gen_C12.pose_copy = ["return self.__class__(self.header, self.body.copy())"]
+  /\ Gen_C12.pose_copy = ["return self.__class__(deepcopy(self.header), self.body.copy())"]
   /\ Gen_C12.body_slice_step = slice_step_literal /\ Gen_C12.body_select_frames = select_frames_literal
   /\ Gen_C12.body_frame_dropout_given_percent = dropout_literal
   /\ Gen_C12.numpy_body_flip = flip_literal /\ Gen_C12.numpy_body_get_points = get_points_literal
